@@ -9,6 +9,9 @@ import (
 	"testing"
 	"time"
 
+	"github.com/abema/go-mp4"
+	"github.com/bluenviron/gortmplib/pkg/amf0"
+	"github.com/bluenviron/gortmplib/pkg/message"
 	"github.com/bluenviron/mediamtx/internal/protocols/moq/catalog"
 	"github.com/bluenviron/mediamtx/internal/protocols/moq/controlmessage"
 	"github.com/bluenviron/mediamtx/internal/protocols/moq/property"
@@ -79,6 +82,73 @@ func TestVerifC35RegressMoQMP4ANoSampleRate(t *testing.T) {
 		rec.Case(true, fmt.Sprintf("moq publish with catalog tracks %s + 4 objects -> request answered=%v, canaries=%q", cat, res[0].Deep, v), "regression")
 		if v != "" {
 			t.Fatalf("C35 violated: after an unauthenticated MoQ publish with catalog tracks %s: %s", cat, v)
+		}
+	}
+}
+
+// c35KeyH264EmptyNALU: stream.formatUpdaterH264 / formatUpdaterH265 (internal/stream/format_updater.go) read nalu[0]
+// of every NAL unit of a written access unit without checking its length. An unauthenticated RTMP publisher whose
+// AVC sequence header carries a zero-length SPS (or PPS) makes gortmplib hand {SPS: [], PPS: ...} to the stream:
+// index out of range in the connection's goroutine (servers/rtmp conn.runPublish -> Reader.Read) -> the process dies.
+const c35KeyH264EmptyNALU = "c35-stream-format-updater-empty-nalu"
+
+// c35RegressRTMPPublish renders a complete plain RTMP publish: handshake, connect, createStream, publish, AVC
+// sequence header with the given SPS/PPS, AAC config, and frames spanning 2.8 s (gortmplib analyses 2 s).
+func c35RegressRTMPPublish(srv *c35Srv, path string, sps, pps []byte) *c35Input {
+	st := c35NewRTMPStream()
+	w := func(m message.Message) {
+		if err := st.w.Write(m); err != nil {
+			panic(err)
+		}
+	}
+	w(&message.CommandAMF0{ChunkStreamID: 3, Name: "connect", CommandID: 1, Arguments: amf0.Data{amf0.Object{
+		{Key: "app", Value: path}, {Key: "flashVer", Value: "LNX 9,0,124,2"}, {Key: "tcUrl", Value: "rtmp://" + srv.addr("rtmp") + "/" + path},
+	}}})
+	w(&message.CommandAMF0{ChunkStreamID: 3, Name: "createStream", CommandID: 2, Arguments: amf0.Data{nil}})
+	w(&message.CommandAMF0{ChunkStreamID: 8, MessageStreamID: 0x1000000, Name: "publish", CommandID: 3, Arguments: amf0.Data{nil, "", "live"}})
+	avcc := &mp4.AVCDecoderConfiguration{ConfigurationVersion: 1, Profile: 0x42, ProfileCompatibility: 0xc0, Level: 0x28, LengthSizeMinusOne: 3, NumOfSequenceParameterSets: 1,
+		SequenceParameterSets: []mp4.AVCParameterSet{{Length: uint16(len(sps)), NALUnit: sps}}, NumOfPictureParameterSets: 1, PictureParameterSets: []mp4.AVCParameterSet{{Length: uint16(len(pps)), NALUnit: pps}}}
+	avcc.SetType(mp4.BoxTypeAvcC())
+	w(&message.Video{ChunkStreamID: message.VideoChunkStreamID, MessageStreamID: 0x1000000, Codec: message.CodecH264, IsKeyFrame: true, Type: message.VideoTypeConfig, AVCConfig: avcc})
+	au := append([]byte{0, 0, 0, byte(len(c35IDR))}, c35IDR...)
+	for i := 0; i < 5; i++ {
+		w(&message.Video{ChunkStreamID: message.VideoChunkStreamID, MessageStreamID: 0x1000000, Codec: message.CodecH264, IsKeyFrame: i == 0, Type: message.VideoTypeAU,
+			DTS: time.Duration(i) * 700 * time.Millisecond, AU: au})
+	}
+	hs := append([]byte{3}, make([]byte, 1536+1536)...)
+	return &c35Input{L: "rtmp", K: "tcp", Proto: "rtmp", Segs: []c35Seg{{D: hs, Wait: true}, {D: st.buf.Bytes()}}, Cls: "regress", Note: "rtmp publish " + path}
+}
+
+func TestVerifC35RegressRTMPEmptySPS(t *testing.T) {
+	if kit.Known(c35KeyH264EmptyNALU) {
+		t.Skip("listed as known finding")
+	}
+	if sh := os.Getenv("VERIF_SHARD"); sh != "" && sh != "0" {
+		t.Skip("regression tests run in shard 0 only")
+	}
+	rec := kit.R("TestVerifC35RegressRTMPEmptySPS")
+	t.Cleanup(kit.Flush)
+	srv, err := c35StartCore(false)
+	if err != nil {
+		fmt.Println("VERIF-INCONCLUSIVE: the Core under test did not come up: " + err.Error())
+		t.Fatalf("VERIF-INCONCLUSIVE: %v", err)
+	}
+	defer srv.stop()
+	for i, ca := range []struct{ sps, pps []byte }{
+		{c35SPS, c35PPS},  // control: a valid publisher must be accepted (otherwise the test below proves nothing)
+		{[]byte{}, c35PPS}, // zero-length SPS
+		{c35SPS, []byte{}}, // zero-length PPS
+	} {
+		in := c35RegressRTMPPublish(srv, fmt.Sprintf("c35rtmp%d", i), ca.sps, ca.pps)
+		res := srv.send(in)
+		time.Sleep(300 * time.Millisecond)
+		v := srv.canaries()
+		rec.Case(true, fmt.Sprintf("rtmp publish with AVC config sps=%x pps=%x -> answered=%v canaries=%q", ca.sps, ca.pps, res.Deep, v), "regression")
+		if i == 0 && !res.Deep {
+			t.Fatalf("harness: the valid RTMP publisher was not answered (reply %d bytes)", res.Reply)
+		}
+		if v != "" {
+			t.Fatalf("C35 violated: after an unauthenticated RTMP publish with AVC config sps=%x pps=%x: %s", ca.sps, ca.pps, v)
 		}
 	}
 }
